@@ -274,6 +274,10 @@ def run(ctx):
             break
     for i in range(12 if tier == "quick" else 120):
         raw_only_case(ctx, rep, rng, i)
+    # correspondence of the append MODEL (Append.v) with the implementation: graph after open / at close / after re-open,
+    # seek position, header bytes, tiling of the file image
+    from harness import c08model
+    c08model.check_append_model(ctx, rep, rng, tier)
 
 
 def replay(d):
